@@ -487,7 +487,6 @@ def _classify(repo, col, R="R-C19-classify"):
 def _pair(repo, col):
     R = "R-C19-pair"
     pair_delete(repo, col, R)
-    delete_scope(repo, col, R)
     _pair_rest(repo, col, R)
     from . import c08
     c08._pairing(repo, col, R)
